@@ -303,6 +303,10 @@ Definition build_document_gen (pinned : bool) (d : pdoc) : ires document :=
 Definition build_document : pdoc -> ires document := build_document_gen false.
 Definition build_document_pinned : pdoc -> ires document := build_document_gen true.
 
+(** XmlAttribute::namespace: the attribute is a namespace declaration *)
+Definition attr_namespace (a : attr) : bool :=
+  match xa_prefix a with Some p => str_eqb p s_xmlns | None => false end || str_eqb (xa_local a) s_xmlns.
+
 (** ** accessors of the document that are not plain projections *)
 Definition doc_doctype (d : document) : option doctype :=            (* document_declaration *)
   match flat_map (fun c => match c with ItDocType x => [x] | _ => [] end) (doc_children d) with
